@@ -83,6 +83,10 @@ func (p *Pegnet) SelectTransactionBatchesInHoldingAtHeight(height uint64) ([]*fa
 		}
 		txBatches = append(txBatches, txBatch)
 	}
+	// a failure while the rows are read must not look like "nothing in holding"
+	if err := rows.Err(); err != nil {
+		return nil, err
+	}
 	return txBatches, nil
 }
 
